@@ -453,7 +453,7 @@ def expire_race_replays(work, tier, seed):
     """Behaviours of ExpireRace.tla (the repaired protocol) from TLC's simulation mode, replayed as schedules on the real cache
     (harness/otter/verif_erreplay_test.go).  Returns (records judged, conformance dict, [(pred, detail, scenario)], broken)."""
     quick = tier == "quick"
-    num = 60 if quick else 600
+    num = 30 if quick else 600
     scen, expect = [], []
     broken = []
     for ci, (wk, sized) in enumerate([("", 0), ("set", 0), ("setifabsent", 1), ("set", 1), ("setifabsent", 0)]):
